@@ -219,10 +219,11 @@ func TestSim(t *testing.T) {
 			RaceMode                bool
 			RaceCompanion           string
 			Companions              []string
+			EvalCounter             string
 		}
 		var l []pi
 		for _, p := range props {
-			l = append(l, pi{p.ID, p.Level, p.Rule, p.QuickRuns, p.ThoroughRuns, p.Real, p.Stub, p.Assumptions, p.BudgetIsViolation, p.RaceMode, p.RaceCompanion, p.Companions})
+			l = append(l, pi{p.ID, p.Level, p.Rule, p.QuickRuns, p.ThoroughRuns, p.Real, p.Stub, p.Assumptions, p.BudgetIsViolation, p.RaceMode, p.RaceCompanion, p.Companions, p.EvalCounter})
 		}
 		sort.Slice(l, func(i, j int) bool { return l[i].ID < l[j].ID })
 		writeJSON(*fOut, l)
